@@ -365,6 +365,8 @@ class RelabelInterp(ResultInterp):
             dt = DTYPE_NAMES[name]
             self.ev(node, "scalar cast", args[0].poly, dt)
             return LV(args[0].poly, dt, "nps")
+        if name == "numpy.dtype" and len(args) == 1 and not kwargs and dtype_of(args[0]) in DT_SYM:
+            return dt_sym(dtype_of(args[0]))  # np.dtype(<dtype-like>) names the same dtype
         if name in ("numpy.can_cast", "numpy.promote_types", "numpy.result_type", "numpy.dtype"):
             return Unknown(name)
         return super().external_call(name, args, kwargs, node)
